@@ -141,7 +141,9 @@ def check_document(doc, argv, stats, label, mode="combined", reread=True):
             stats.sample({"document": label, "options": lab, "blocks_with_replaced_segments": replaced})
     if reread and not fails:
         rr = pipeline.gasol(roundtrip_doc, json.dumps(out_doc), "-push0" not in argv, mode != "combined", cpu=120)
-        if rr.kind != "ok":
+        if rr.kind == "timeout":
+            stats.inconclusive += 1           # wall-clock limit of the harness: machine load, not the tool
+        elif rr.kind != "ok":
             fails.append(runner.Failure("output-not-rereadable", str(rr.info[0] if rr.kind == "exc" else rr.kind),
                                         "[%s] the tool's parser cannot re-read its own output: %s" % (lab, str(rr.info)[:200]), case))
         else:
